@@ -76,6 +76,7 @@ fn main() {
     match argv[1].as_str() {
         "supervise" => std::process::exit(supervise::supervise(&a)),
         "worker" => supervise::worker(&a),
+        "worker-hashes" => std::process::exit(supervise::worker_hashes(&a)),
         "exec-case" => {
             silence_panics();
             arena::install_fault_handler();
